@@ -1,5 +1,6 @@
 from __future__ import annotations
 
+from collections import Counter
 from math import isnan
 from types import CodeType
 from typing import Union
@@ -57,7 +58,9 @@ def inner_constant_key(value: ConstantValue) -> object:
     if isinstance(value, tuple):
         return tuple(map(constant_key, value))
     if isinstance(value, frozenset):
-        return frozenset(map(constant_key, value))
+        # Count the keys, since several nan values are different elements of the
+        # set, but all have the same key
+        return frozenset(Counter(map(constant_key, value)).items())
     raise NotImplementedError(f"Unsupported constant type: {type(value)}")
 
 
